@@ -182,7 +182,7 @@ theorem buildNew_unlocked_refines {c : CW} {s : WS} (hi : Inv c) (hb : Bounds c)
     rw [hd] at this
     exact List.length_eq_zero_iff.mp this
   have hdeps : s.deps = w.deps := hr.deps
-  have hset : closed s.deps (Mask.ofList (adds.map (·.1))) = tm := by rw [hdeps, hMdef, ← htmdef]; rfl
+  have hset : closed s.deps M = tm := by rw [hdeps, ← htmdef]; rfl
   have hx : optRel (some ⟨rebuild info [] tm (adds.map (fun p => (p.1, storedVal info p.1 p.2))), []⟩) (absEnt w3 h) := by
     rw [owns_absEnt howns, hmask3, hsh3]
     refine ⟨?_, fun _ => rfl⟩
